@@ -27,7 +27,9 @@ RULE = ("cases = list of <=25 ops: set_bounds (any of the seven properties, "
         "F/S words, optionally through a move hook that returns a new parameter "
         "dict with F/S; set_feed_rate, set_tool_power, tool_on/power_on, "
         "tool_change, three temperature setters, three waiting halts with S or "
-        "R; tracer shapes crossing the box; every bounded value drawn from "
+        "R; tracer shapes crossing the box; modal settings in between (feed "
+        "mode incl. inverse time, extrusion mode, length/temperature/time units, "
+        "plane); every bounded value drawn from "
         "{min, max, nextafter(min,-inf), nextafter(max,+inf), interior, far "
         "outside, NaN, +-inf, the value last given to that property (whatever "
         "limits were in force then)} of the bound in force; non-trivial = a value "
@@ -171,6 +173,15 @@ def op_strategy(only_bounds=False):
         st.fixed_dictionaries({"op": st.just("shape"), "d": hist.shape_strategy(),
                                "dir": st.sampled_from(["cw", "ccw"]),
                                "goto_center": st.booleans()}),
+        # modal settings that must not change how limits are enforced
+        st.sampled_from([("set_feed_mode", "1/time"), ("set_feed_mode", "units/rev"),
+                         ("set_feed_mode", "units/min"), ("set_feed_mode", "1/time"),
+                         ("set_extrusion_mode", "relative"), ("set_extrusion_mode", "absolute"),
+                         ("set_length_units", "inches"), ("set_length_units", "millimeters"),
+                         ("set_temperature_units", "kelvin"), ("set_temperature_units", "celsius"),
+                         ("set_time_units", "milliseconds"), ("set_plane", "zx"),
+                         ("set_plane", "xy")]).map(
+            lambda t: {"op": "mode", "call": t[0], "arg": t[1]}),
     )
     if only_bounds:
         return st.one_of(sb, sb, sb, box)
@@ -232,6 +243,11 @@ def run_case(case, cl=None):
         if name == "set_distance_mode":
             g.set_distance_mode(op["mode"])
             s.poll()
+            continue
+        if name == "mode":
+            getattr(g, op["call"])(op["arg"])
+            s.poll()
+            cl.add("mode:" + op["call"][4:] + "=" + op["arg"])
             continue
         if name == "auto_home":
             try:
